@@ -698,6 +698,14 @@ func (r *collection) addService(service any, lifetime Lifetime, opts ...AddOptio
 func (r *collection) registerDescriptors(descriptors []*Descriptor, operation string) error {
 	claimed := make(map[TypeKey]struct{}, len(descriptors))
 	for _, descriptor := range descriptors {
+		// Reserved types cannot be registered in any output position
+		if _, isReserved := reservedTypes[descriptor.Type]; isReserved {
+			return &ValidationError{
+				ServiceType: descriptor.Type,
+				Cause:       fmt.Errorf("service type %s is reserved and cannot be registered", formatType(descriptor.Type)),
+			}
+		}
+
 		if descriptor.Key == nil && descriptor.Group != "" {
 			continue // group members never collide
 		}
